@@ -18,7 +18,9 @@ RULE = ('(1) parity: for every labelled centre of generated molecules all 24 (6)
         'centre: all 24 neighbour orders x centre first/middle x @/@@ x H inside/outside the bracket x ring-closure neighbours, and all '
         '/ \\ placements around a double bond, judged by RDKit. (3) inverting one label of an in-domain centre never gives an equal '
         'molecule; RDKit agrees the two are different. (4) labels written on non-stereogenic centres are dropped. (6) wedge notation: every single-wedge marking of a centre (any bond, up or down, from either allene terminal) on a generated drawing must be stored as a function of the geometric hand only. (5) marks written by the library in every style (canonical, random, asymmetric closures, explicit H, Kekule) for labelled molecules up to 18 atoms incl. polycycles are read by RDKit as the same molecule as the spelling of an independent writer. '
-        'non-trivial = at least one label survives parsing; distinct by (canonical string, ordering / spelling)')
+        'non-trivial = at least one label survives parsing; distinct by (canonical string, ordering / spelling)'
+        '; also: axial family: ring-attached cumulenes with the ring at either terminal.'
+        '; also: spelling families with endocyclic E/Z double bonds in rings of 8-10 (stereogenic) and 6-7 (label dropped).')
 ASSUMPTIONS = ['parity from permutation cycle structure (vf/oracles/iso.py), independent of the library translation tables',
                'RDKit is the judge of the absolute convention for SMILES marks; chython supports carbon centres only',
                'centres with constitutionally equivalent substituents are outside clause (3) (C01 gap a)']
@@ -508,6 +510,17 @@ def spellings():
             yield {'spell': f'F{s1}1.C1=C{s2}Cl', 'family': 'FC=CCl'}
             for s3 in '/\\':
                 yield {'spell': f'F{s1}C=C{s2}C=C{s3}Cl', 'family': 'diene'}
+    # endocyclic double bonds: stereogenic from ring size 8 on (the independent toolkit draws the same line), not below
+    for n in (6, 7, 8, 9, 10):
+        for k in range(1, n - 3):
+            for s1 in '/\\':
+                for s2 in '/\\':
+                    text = f"C1{'C' * k}{s1}C=C{s2}{'C' * (n - 3 - k)}1"
+                    if n >= 8:
+                        yield {'spell': text, 'family': f'ring-ene-{n}'}
+                        yield {'spell': f"C1{'C' * k}{s1}C(C)=C{s2}{'C' * (n - 3 - k)}1", 'family': f'ring-ene-{n}-Me'}
+                    else:
+                        yield {'spell': text, 'family': None, 'expect_no_label': True}
     # labels on non-stereogenic centres must be dropped
     for s in ('[C@](C)(C)(F)Cl', 'C[C@H](C)F', '[C@H2](F)Cl', 'C[C@@](C)(C)C', 'F/C=C(/Cl)Cl', 'C/C=C(C)/C', 'F/C(F)=C/Cl', 'N[C@](N)(O)O',
               'C[C@H]1CC1', 'F/C=C/1CCCCC1'.replace('/1', '1')):
